@@ -15,7 +15,7 @@ import ast
 
 from .. import paths, storewalk, tables
 from ..model import AnalysisError, Project, self_attr, walk_no_nested
-from ..report import Result
+from ..report import Result, ctx_of
 from ..tables import QP, QG
 from .common import site, src
 from . import c04
@@ -39,6 +39,7 @@ def run(p: Project, tier: str) -> Result:
     r.assumptions = ['list.sort is stable (language guarantee)', 'simpy BaseResource enqueues the request inside Put/Get.__init__ via queue.append']
     ws = storewalk.walks(p, assume_inv=('I1',))
     for w in ws:
+        r.ctx = ctx_of(w)
         r.paths += w.npaths
         check_enqueue(p, w, r)
         check_queue_mutations(p, w, r)
